@@ -4,6 +4,7 @@ import (
 	"go/ast"
 	"go/constant"
 	"go/token"
+	"go/types"
 
 	"golang.org/x/tools/go/ssa"
 )
@@ -29,6 +30,45 @@ func (P *Program) globalInit(g *ssa.Global) (constant.Value, bool) {
 					if tv, ok := pkg.TypesInfo.Types[vs.Values[i]]; ok && tv.Value != nil {
 						return tv.Value, true
 					}
+				}
+			}
+		}
+	}
+	return nil, false
+}
+
+// globalInitDynType: for a package-level variable of interface type that is initialised by a
+// composite literal (T{...} or &T{...}), the dynamic type of its initial value.
+func (P *Program) globalInitDynType(g *ssa.Global) (types.Type, bool) {
+	pkg := P.pkgs[g.Pkg.Pkg.Path()]
+	if pkg == nil {
+		return nil, false
+	}
+	for _, f := range pkg.Syntax {
+		for _, d := range f.Decls {
+			gd, ok := d.(*ast.GenDecl)
+			if !ok || gd.Tok != token.VAR {
+				continue
+			}
+			for _, sp := range gd.Specs {
+				vs := sp.(*ast.ValueSpec)
+				for i, n := range vs.Names {
+					if n.Name != g.Name() || i >= len(vs.Values) || len(vs.Values) != len(vs.Names) {
+						continue
+					}
+					e := ast.Unparen(vs.Values[i])
+					if u, ok := e.(*ast.UnaryExpr); ok && u.Op == token.AND {
+						if _, ok := ast.Unparen(u.X).(*ast.CompositeLit); !ok {
+							return nil, false
+						}
+					} else if _, ok := e.(*ast.CompositeLit); !ok {
+						return nil, false
+					}
+					t := pkg.TypesInfo.TypeOf(vs.Values[i])
+					if t == nil || types.IsInterface(t) {
+						return nil, false
+					}
+					return t, true
 				}
 			}
 		}
